@@ -316,6 +316,63 @@ def run(ctx):
             ctx.violation('a history of estimatefee queries disagrees with the cache + provider machine (cache slot = fee group of the block count)',
                           {'op': 'svc_hist estimatefee', 'line': ';'.join(qlines), 'observed': real, 'model': model})
 
+    # ---- gettransactions with after_txid from a warm cache: several transactions, two of them in one block ------------------------
+    from datetime import datetime, timezone
+    for rep_i in range(2 if not T else 6):
+        heights = rng.choice([[100, 100, 101, 103], [200, 201, 201, 201], [7, 7, 7, 9], [50, 51, 52, 52]])
+        many = []
+        for j, hgt in enumerate(heights):
+            kj = Key(5000 + 10 * rep_i + j)
+            tj = Transaction(network='bitcoin', witness_type='segwit')
+            tj.add_input(bytes([rep_i + 1, j + 1]) * 16, j, keys=[kj], script_type='sig_pubkey', value=90000, witness_type='segwit')
+            tj.add_output(80000, address=addr)
+            tj.sign([kj])
+            many.append((tj.raw_hex(), hgt))
+
+        def all_txs(_i, many=many):
+            out = []
+            for rawj, hgt in many:
+                tt = Transaction.parse_hex(rawj)
+                tt.block_height = hgt
+                tt.confirmations = 800000 - hgt
+                tt.date = datetime(2021, 1, 1, tzinfo=timezone.utc)
+                tt.status = 'confirmed'
+                for inp in tt.inputs:
+                    inp.value = 90000
+                tt.update_totals()
+                out.append(tt)
+            return out
+
+        ids = [Transaction.parse_hex(r).txid for r, _ in many]
+        srv = new_service(2)
+        srv.max_errors = 4
+        for i in range(2):
+            script[i] = {'blockcount': ('ok', 800000), 'gettransactions': ('ok', all_txs)}
+            srv.providers['fake%d' % i]['priority'] = 50 - i
+        try:
+            cold = [x.txid for x in srv.gettransactions(addr)]
+        except Exception as e:
+            cold = 'raise:%s' % type(e).__name__
+        ctx.evals += 1
+        if cold != ids:
+            ctx.violation('gettransactions does not return the provider\'s answer', {'op': 'gettransactions cold', 'observed': cold, 'expected': ids})
+            continue
+        for i in range(2):
+            script[i]['gettransactions'] = ('raise',)
+        for pos, after in enumerate(ids):
+            ctx.evals += 1
+            ctx.count('gettransactions-after_txid-from-cache')
+            try:
+                got = [x.txid for x in srv.gettransactions(addr, after_txid=after)]
+            except ServiceError:
+                got = 'error'
+            except Exception as e:
+                got = 'raise:%s' % type(e).__name__
+            if got != 'error' and got != ids[pos + 1:]:
+                ctx.violation('a cached gettransactions answer after a given txid is not the stored answer after that transaction',
+                              {'op': 'gettransactions warm after_txid', 'block_heights': heights, 'after_position': pos,
+                               'observed': [g[:8] for g in got] if isinstance(got, list) else got, 'expected': [g[:8] for g in ids[pos + 1:]]})
+
     # ---- a failed query must not poison later ones: all providers down (error limit reached), then healthy again ---------------
     for qname, (call, answer, who) in queries.items():
         for maxe in (1, 2, 4):
